@@ -238,10 +238,10 @@ LostFrom(c, w, need, have, i, j) ==
           ELSE LostFrom(c, w, need, have, i + 1, SetMin(ks) + 1)
 Lost(c, w) == LET gone == AllGone(c, w) IN LostFrom(c, w, MustIdx(c, gone), CommentIdx(c.U), 1, 1)
 
+(* no comment is duplicated or invented: every comment of the result is a     *)
+(* comment of the original or of the new code, with multiplicity               *)
 NoDup(c) ==
-  LET ins  == InsideDeleted(c)
-      keep == SelectSeq(CommentIdx(c.T), LAMBDA i : i \notin ins)
-  IN SubBagOf(BagOfSeq(At(c.U, CommentIdx(c.U))), BagOfSeq(At(c.T, keep)) (+) BagOfSeq(c.newc))
+  SubBagOf(BagOfSeq(At(c.U, CommentIdx(c.U))), BagOfSeq(At(c.T, CommentIdx(c.T))) (+) BagOfSeq(c.newc))
 
 (* ------------------------------------------------------------------------ *)
 (* lines                                                                     *)
